@@ -26,6 +26,7 @@ const (
 	bReset     = "reset"         // connection reset right after the request
 	bResetMid  = "reset-mid"     // headers + Cut bytes, then reset
 	bGate      = "gate"          // chunked; after GateChunk chunks notify and hold for ever (crash phase)
+	bPause     = "pause"         // notify, wait until released, then 200 with the complete body (overlapping refreshes)
 )
 
 // behaviour is what the server does with one request.
@@ -67,8 +68,10 @@ type fsrv struct {
 	reqs   int
 	log    []servedRec
 	gateCh chan gateEvt
-	closed bool
-	wg     sync.WaitGroup
+	// releaseCh, when closed, lets paused responses (bPause) continue.
+	releaseCh chan struct{}
+	closed    bool
+	wg        sync.WaitGroup
 }
 
 const holdMax = 20 * time.Second
@@ -284,6 +287,7 @@ func (s *fsrv) handle(c net.Conn) {
 	s.reqs++
 	b := s.script(n)
 	gateCh := s.gateCh
+	releaseCh := s.releaseCh
 	s.mu.Unlock()
 
 	rec := servedRec{Kind: b.Kind, Version: b.Version}
@@ -342,8 +346,19 @@ func (s *fsrv) handle(c net.Conn) {
 		return pieces, nil
 	}
 
+	if b.Kind == bPause {
+		if gateCh != nil {
+			gateCh <- gateEvt{Target: s.name}
+		}
+		if releaseCh != nil {
+			select {
+			case <-releaseCh:
+			case <-time.After(holdMax):
+			}
+		}
+	}
 	switch b.Kind {
-	case bOK, bStatus, bEmpty:
+	case bOK, bStatus, bEmpty, bPause:
 		body := b.Body
 		if b.Kind == bEmpty {
 			body = nil
